@@ -31,6 +31,7 @@ def run(ctx):
     ctx.guard(_scope.containment, ctx, 'C20-CONTAIN')
     ctx.guard(emission_loops, ctx)
     ctx.guard(stateless, ctx)
+    ctx.guard(component_choice, ctx)
     from . import c02 as _c02, c09 as _c09
     from .common import AssocModel as _AM
     ctx.shared(_c02.atomic, ctx, _AM(ctx.repo))    # a rejected edit (relate / unrelate) leaves the model, hence the regenerated schema, unchanged
@@ -427,3 +428,48 @@ def xml(ctx):
     bs = repo.func(XSD + ':build_schema')
     r.check(pm.contains("schema.set('xmlns:xs', 'http://www.w3.org/2001/XMLSchema')", bs), 'the xs namespace is declared on the root', bs,
             construct=XSD + ':build_schema', key='xmlns', msg='build_schema does not declare xmlns:xs on the root element')
+
+
+def component_choice(ctx):
+    """the schema is generated `for a component`: the command line names it, and the component whose Name is exactly that text is the one
+    handed to build_schema (model element names are case- and space-sensitive: Comp and comp are two components)"""
+    repo = ctx.repo
+    r = ctx.rule('C20-COMPONENT', 'main() picks the component whose Name equals the -c argument exactly', floor=1,
+                 oracle='property statement: the schema mirrors THE component; BridgePoint names are case sensitive')
+    Q = XSD + ':main'
+    fn = repo.func(Q)
+    sels = [n for n in ast.walk(fn) if isinstance(n, ast.Call) and isinstance(n.func, ast.Attribute) and n.func.attr in ('select_any', 'select_one')
+            and n.args and isinstance(n.args[0], ast.Constant) and n.args[0].value == 'C_C']
+    if not sels:
+        raise AnalysisError('%s: main() no longer selects a C_C instance' % loc(fn))
+    once = {}
+    for a in ast.walk(fn):
+        if isinstance(a, ast.Assign) and len(a.targets) == 1 and isinstance(a.targets[0], ast.Name):
+            once.setdefault(a.targets[0].id, []).append(a.value)
+
+    def resolve(e):
+        while isinstance(e, ast.Name) and len(once.get(e.id, [])) == 1:
+            e = once[e.id][0]
+        return e
+    for c in sels:
+        preds = c.args[1:]
+        ok, why = False, 'no filter on the name'
+        for p_ in preds:
+            p_ = resolve(p_)
+            if isinstance(p_, ast.Lambda) and isinstance(p_.body, ast.Compare) and len(p_.body.ops) == 1 and isinstance(p_.body.ops[0], ast.Eq):
+                a, b = resolve(p_.body.left), resolve(p_.body.comparators[0])
+                par = p_.args.args[0].arg if p_.args.args else None
+                sides = sorted([src(a), src(b)])
+                ok = sides == sorted(['%s.Name' % par, 'opts.component'])
+                why = 'it compares `%s` with `%s`' % (src(a), src(b))
+            elif isinstance(p_, ast.Call) and dotted(p_.func) in ('where_eq', 'xtuml.where_eq', 'where') and len(p_.keywords) == 1 and p_.keywords[0].arg == 'Name':
+                ok = src(resolve(p_.keywords[0].value)) == 'opts.component'
+                why = 'it filters on Name=%s' % src(resolve(p_.keywords[0].value))
+            elif isinstance(p_, ast.Dict) and len(p_.keys) == 1 and isinstance(p_.keys[0], ast.Constant) and p_.keys[0].value == 'Name':
+                ok = src(resolve(p_.values[0])) == 'opts.component'
+                why = 'it filters on Name=%s' % src(resolve(p_.values[0]))
+            else:
+                why = 'the filter `%s` is not an equality on Name' % src(p_)[:60]
+        r.check(ok, 'the component is chosen by Name == opts.component', c, construct=Q, key='component-by-name',
+                msg='main() chooses the component with `%s`: %s, not the exact equality of its Name with the -c argument; with two components whose '
+                    'names differ only in what the comparison ignores, the schema of the wrong component is written' % (src(c)[:90], why))
